@@ -60,6 +60,10 @@ func (ps *PartitionSet) AddRange(partName, modelName string, start, end, modulo 
 			return
 		}
 		ps.partitions[i] = partitionIndex
+		// The next site is after the end (i+modulo may overflow for very large modulos)
+		if modulo > end-i {
+			break
+		}
 	}
 	return
 }
